@@ -227,7 +227,7 @@ pub fn gen_family(trees: &[usize]) -> Vec<GenCfg> {
         for ns in [3usize, 2] {
             for stage in 0..4usize {
                 for nstate in [1usize, 2, 3, 5, 7] {
-                    for wset in 0..4usize {
+                    for wset in [0usize, 1, 2, 3, 6, 7] {
                         for gv in [false, true] {
                             v.push(GenCfg { ns, stage, log_gain: (nstate + wset) % 2 == 1, nstate, wset, gv, tree, // vector lengths vary over the family: cepstral orders 3..5, LSP orders 3..5 (odd and even)
                             order: if stage == 0 { 3 + (nstate + wset) % 3 } else { 4 + (nstate + wset + gv as usize) % 3 },
@@ -271,7 +271,7 @@ fn timed(lines: &[String], bounds_s: &[f64]) -> Vec<String> {
 
 pub fn run(tier: Tier) -> i32 {
     let rep = Report::new("C01", tier, "model_checking");
-    rep.set_rule("SCOPE: voices {V0, P1(V0)} + generated G(ns in {2,3}, stage in {0..3}, nstate in {1,2,3,5,7}, 4 window sets, gv on/off) x utterances (empty; 1 label over the cover set Lambda and one-group recombinations; label pairs; corpus windows of 3 and 8; structurally extreme typed labels) x every condition with <= d deviations from the default over the per-setter alphabets; each case synthesised by the real Engine inside catch_unwind; distinct = (voice, condition, utterance); non-trivial = non-empty utterance");
+    rep.set_rule("SCOPE: voices {V0, P1(V0)} + generated G(ns in {2,3}, stage in {0..3}, nstate in {1,2,3,5,7}, 6 window sets incl. two with even-length windows, gv on/off) x utterances (empty; 1 label over the cover set Lambda and one-group recombinations; label pairs; corpus windows of 3 and 8; structurally extreme typed labels) x every condition with <= d deviations from the default over the per-setter alphabets; each case synthesised by the real Engine inside catch_unwind; distinct = (voice, condition, utterance); non-trivial = non-empty utterance");
     rep.assume("labels outside Lambda/RECOMB1/corpus windows, conditions with more deviations than the bound and utterances longer than 8 labels are not explored; stable range = conservative reading (|F1|,|F2|,|F1+F2| <= 4 on a 33-point grid; LSP: K>0, gaps >= pi/(4(order+1)))");
     let st = Stats { in_range: Default::default(), out_range: Default::default(), short_mean: Default::default(), nonfinite_ok: Default::default() };
     let corpus = labels::corpus();
